@@ -62,14 +62,14 @@ def run_fill(first, inside):
 
 
 MGRS = [T(0), T(1), T(2), T(3)]
-OUTCOMES = ["next", None, "PRUNE"]
+OUTCOMES = ["next", None, "PRUNE", "()"]        # "()": a literal empty tuple, documented as equivalent to PRUNE
 for L in (1, 2, 3):
     for table in itertools.product(OUTCOMES, repeat=L):
         if any(o != "next" for o in table[:-1]):
             continue                      # the chain stops at the first None / PRUNE
         TABLE.clear()
         for i, o in enumerate(table):
-            TABLE[i] = MGRS[i + 1] if o == "next" else (PRUNE if o == "PRUNE" else None)
+            TABLE[i] = MGRS[i + 1] if o == "next" else (PRUNE if o == "PRUNE" else (tuple([]) if o == "()" else None))
         TABLE[L] = None if table[-1] == "next" else TABLE.get(L)
         results = []
         for inside in (False, True):
@@ -83,7 +83,7 @@ for L in (1, 2, 3):
                 exp_log.append(("elaborate", i, True, None, ()))        # sees itself as obj, and a RESET inner_stack / children
                 exp_log.append(("unwrap", i, True))
             last = table[-1] if steps < L else None
-            ok = (err is None and c.obj is final and log == exp_log and c.hide == (last == "PRUNE")
+            ok = (err is None and c.obj is final and log == exp_log and c.hide == (last in ("PRUNE", "()"))
                   and c.inner_stack is not None and c.inner_stack.root == ("inner-of", steps) and [x.obj for x in c.children] == [("child-of", steps)])
             if not ok:
                 leg.violation(key, f"table {table}: obj={c.obj!r} (expected {final!r}) hide={c.hide} err={err!r} log={log} expected log={exp_log} "
@@ -91,6 +91,36 @@ for L in (1, 2, 3):
             results.append((repr(c.obj), c.hide, log))
         if results[0] != results[1]:
             leg.violation((table, "same"), f"fill_context outside an extraction differs from inside one: {results}")
+
+# managers made ON THE FLY by the unwrap hook, nobody else holding them (each step's predecessor dies, its address is free for the
+# next one): a finite chain of n steps ends at the last manager with no error, for n up to 40
+class Fresh:
+    def __init__(s, n): s.n = n
+    def __enter__(s): return s
+    def __exit__(s, *a): return False
+
+
+@stackscope.unwrap_context.register(Fresh)
+def _uw_fresh(mgr, ctx):
+    return Fresh(mgr.n - 1) if mgr.n > 0 else None
+
+
+for n in (1, 2, 3, 4, 5, 8, 13, 40):
+    for inside in (False, True):
+        key = ("fresh-managers", n, inside)
+        leg.case(key, True)
+        cfr = Context(obj=Fresh(n), is_async=False)
+        errf = None
+        try:
+            if inside:
+                with E.current_options.push(with_contexts=True, recurse_child_tasks=False):
+                    E.fill_context(cfr)
+            else:
+                E.fill_context(cfr)
+        except Exception as e:
+            errf = e
+        if errf is not None or not isinstance(cfr.obj, Fresh) or cfr.obj.n != 0 or cfr.hide:
+            leg.violation(key, f"chain of {n} managers made on the fly: obj={getattr(cfr.obj, 'n', cfr.obj)!r} hide={cfr.hide} error={errf!r}")
 
 # cycle: more than 100 unwrap steps end in an error, not a hang
 TABLE.clear(); TABLE[0] = MGRS[1]; TABLE[1] = MGRS[0]
